@@ -167,6 +167,9 @@ func (r *runner) checkAdd(line string, d *txDef, err error, before, after *snaps
 		e := defs[i]
 		related := names(e, d) || names(d, e) || (d.oracle >= 0 && e.oracle == d.oracle)
 		if related {
+			if (names(e, d) || names(d, e)) && d.oracle >= 0 && e.oracle == d.oracle {
+				r.o.Count("add:removed-for-two-reasons")
+			}
 			if names(e, d) {
 				r.o.Count("add:removed-names-new")
 			}
